@@ -7,6 +7,11 @@ ROOT = os.path.dirname(os.path.dirname(os.path.abspath(__file__)))
 
 # property id -> list of harness names (directories under /verif/bounded)
 HARNESSES = {
+    # bounded conformance of the real sqlite store against the assumed storage.MintDB contracts (A-DB)
+    "C01": ["dbconf"],
+    "C03": ["dbconf"],
+    "C15": ["dbconf"],
+    "C16": ["dbconf"],
     "C11": ["keysetid"],
     "C09": ["keysetid"],
     "C14": ["token_roundtrip"],
